@@ -1,3 +1,6 @@
 #!/bin/sh
 # usage: cq.sh File.v   (from /verif/coq) compile one file with project flags
 cd /verif/coq && timeout ${CQ_TIMEOUT:-600} coqc -Q Lib OSU.Lib -Q Model OSU.Model -Q Generated OSU.Generated -Q Proofs OSU.Proofs -Q Properties OSU.Properties -Q Extract OSU.Extract -w -all "$@"
+rc=$?
+[ $rc -eq 124 ] && echo "cq.sh: TIMEOUT after ${CQ_TIMEOUT:-600}s compiling $*" >&2
+exit $rc
